@@ -74,6 +74,9 @@ def showRej : Rej → String
   | .nogenesis => "nogenesis" | .getHeader => "getheader" | .parse => "parse" | .fuel => "fuel" | .nocanon => "nocanon"
   | .genesisStored => "genesis-stored" | .prevValidators => "prevvalidators" | .heightOrder => "heightorder"
   | .genesisSigners => "signerlist"
+  | .cpBeneficiary => "cp-beneficiary" | .nonce => "nonce" | .cpNonce => "cp-nonce" | .extraSigners => "extra-signers"
+  | .cpSignerlist => "cp-signerlist" | .cpMismatch => "cp-mismatch" | .extraInfo => "extrainfo"
+  | .genesisHeight => "genesis-height"
 
 def showOut : Out → String
   | .ok => "ok" | .skipDup => "skip:dup" | .skipNoParent => "skip:noparent" | .reject r => "reject:" ++ showRej r
@@ -130,7 +133,7 @@ def stepPosa (d : DSt) (toks : List String) : DSt × String :=
     | some _, some id, some num, some cb, some diff, some (extra, _), some pvs, some time, some gl =>
       if !checkDescr d id toks then (d, "bad-op")
       else
-        let g : Hdr := ⟨id, 0, num, cb, none, diff, extra, time, gl, 0, true, true, none⟩
+        let g : Hdr := ⟨id, 0, num, cb, none, diff, extra, time, gl, 0, true, true, none, .drop⟩
         let (st', o) := syncGenesis d.st g pvs
         let d' := { d with st := st', descr := (id, toks) :: d.descr, ids := id :: d.ids, maxNum := max d.maxNum num }
         if o == .panic then (d', "panic") else (d', showOut o ++ " " ++ canonLine st')
@@ -143,7 +146,7 @@ def stepPosa (d : DSt) (toks : List String) : DSt × String :=
       | some signer, some time, some gl, some gu, some (mixZero, uncleOk), some baseFee =>
         if !checkDescr d id toks then (d, "bad-op")
         else
-          let h : Hdr := ⟨id, parent, num, cb, signer, diff, extra, time, gl, gu, mixZero, uncleOk, baseFee⟩
+          let h : Hdr := ⟨id, parent, num, cb, signer, diff, extra, time, gl, gu, mixZero, uncleOk, baseFee, .drop⟩
           let (st', o) := syncHeader R d.st h
           let d' := { d with st := st', descr := (id, toks) :: d.descr, ids := id :: d.ids, maxNum := max d.maxNum num }
           if o == .panic then (d', "panic") else (d', showOut o ++ " " ++ canonLine st')
@@ -153,8 +156,71 @@ def stepPosa (d : DSt) (toks : List String) : DSt × String :=
   | ["state"] => if d.router.isSome then (d, showState d) else (d, "bad-op")
   | _ => (d, "bad-op")
 
+/-! ## family posamsc -/
+
+structure MSt where
+  cfg : Option Msc.Cfg
+  addrs : Array Addr
+  st : St
+  descr : List (Nat × List String)
+  ids : List Nat
+  maxNum : Nat
+
+def MSt.init : MSt := ⟨none, #[], St.empty, [], [], 0⟩
+
+def MSt.asD (m : MSt) : DSt := ⟨none, m.addrs, m.st, m.descr, m.ids, m.maxNum⟩
+
+def showOutMsc : Out → String := showOut
+
+/-- flags of the msc family: mix, unc, auth, badnonce -/
+def parseFlagsMsc (s : String) : Option (Bool × Bool × Nonce) :=
+  if s == "-" then some (true, true, .drop)
+  else (s.splitOn ",").foldlM (fun (acc : Bool × Bool × Nonce) f =>
+    if f == "mix" then some (false, acc.2.1, acc.2.2) else if f == "unc" then some (acc.1, false, acc.2.2)
+    else if f == "auth" then some (acc.1, acc.2.1, .auth) else if f == "badnonce" then some (acc.1, acc.2.1, .other)
+    else none) (true, true, .drop)
+
+def stepMsc (d : MSt) (toks : List String) : MSt × String :=
+  match toks with
+  | ["router", "msc", epoch, period, table] =>
+    match d.cfg, epoch.toNat?, period.toNat?, parseTable table with
+    | none, some ep, some per, some tab => ({ d with cfg := some ⟨ep, per⟩, addrs := tab }, "ok")
+    | _, _, _, _ => (d, "bad-op")
+  | ["genesis", id, num, cb, sealTok, diff, extra, time] =>
+    match d.cfg, id.toNat?, num.toNat?, parseCb d.asD cb, diff.toNat?, parseExtra d.asD extra, time.toNat? with
+    | some C, some id, some num, some cb, some diff, some (extra, sealLen), some time =>
+      match parseSeal d.asD sealTok sealLen with
+      | some signer =>
+        if !checkDescr d.asD id toks then (d, "bad-op")
+        else
+          let g : Hdr := { id := id, parent := 0, number := num, coinbase := cb, signer := signer, difficulty := diff, extra := extra,
+                           time := time, gasLimit := 30000000, gasUsed := 0, mixZero := true, uncleOk := true, baseFee := none }
+          let (st', o) := Msc.syncGenesis C d.st g
+          let d' := { d with st := st', descr := (id, toks) :: d.descr, ids := id :: d.ids, maxNum := max d.maxNum num }
+          (d', showOutMsc o ++ " " ++ canonLine st')
+      | none => (d, "bad-op")
+    | _, _, _, _, _, _, _ => (d, "bad-op")
+  | ["hdr", id, parent, num, cb, sealTok, diff, extra, time, flags] =>
+    match d.cfg, id.toNat?, parent.toNat?, num.toNat?, parseCb d.asD cb, diff.toNat?, parseExtra d.asD extra with
+    | some C, some id, some parent, some num, some cb, some diff, some (extra, sealLen) =>
+      match parseSeal d.asD sealTok sealLen, time.toNat?, parseFlagsMsc flags with
+      | some signer, some time, some (mixZero, uncleOk, nonce) =>
+        if !checkDescr d.asD id toks then (d, "bad-op")
+        else
+          let h : Hdr := { id := id, parent := parent, number := num, coinbase := cb, signer := signer, difficulty := diff, extra := extra,
+                           time := time, gasLimit := 30000000, gasUsed := 0, mixZero := mixZero, uncleOk := uncleOk, baseFee := none,
+                           nonce := nonce }
+          let (st', o) := Msc.syncHeader C d.st h
+          let d' := { d with st := st', descr := (id, toks) :: d.descr, ids := id :: d.ids, maxNum := max d.maxNum num }
+          if o == .panic then (d', "panic") else (d', showOutMsc o ++ " " ++ canonLine st')
+      | _, _, _ => (d, "bad-op")
+    | _, _, _, _, _, _, _ => (d, "bad-op")
+  | ["state"] => if d.cfg.isSome then (d, showState d.asD) else (d, "bad-op")
+  | _ => (d, "bad-op")
+
 def main (family : String) : IO Unit :=
   if family == "posa" then Proto.run DSt.init stepPosa
+  else if family == "posamsc" then Proto.run MSt.init stepMsc
   else IO.eprintln s!"drv_lc: family {family} is not implemented"
 
 end Poly.Model.LCPosaDrv
